@@ -28,6 +28,14 @@ CLAIMS["C20"] = {
     "design_ref": "DESIGN.md §5 C20",
 }
 
+CLAIMS["C05"] = {
+    "technique": "static analysis: typestate dataflow over error_context_t (save/setjmp/restore/pop) with call-graph may_raise summaries, field-set sibling agreement, dominance and constant propagation in error_handler",
+    "text": "All users of the error-recovery API are enumerated from the call graph; for each, the typestate automaton is run over the CFG with every call classified by an inter-procedural may-raise summary: "
+            "no raising call while the context is registered but its jmp_buf unarmed, restore_context first on every recovery branch, pop_context on every exit, no re-raise into the same recovery point. "
+            "save/restore and push/pop field sets must agree, error_handler must reset its guards before every longjmp. Decides the recovery mechanism on all paths; per-efun value-stack hygiene on error is not decided.",
+    "design_ref": "DESIGN.md §5 C05",
+}
+
 NOT_APPLICABLE = {
     "C18": "Line/trace correctness is a value-level question about run-length tables (encode in the code generator, decode in find_line); no clause of it is visible in the shape of the code, so static analysis gives no verdict (DESIGN.md §6).",
 }
